@@ -399,6 +399,18 @@ pub fn encode_term(o: &mut Vec<u8>, v: &Val, ch: &mut dyn Chooser, opts: &Opts) 
                 }
                 return Ok(());
             }
+            // the format does not require the tail of a LIST_EXT to be NIL or a non-list: the same list may be
+            // written as a head of k elements whose tail is the encoding of the remaining list
+            if elems.len() >= 2 && ch.choose(&["LIST_EXT", "LIST_EXT/tail-is-a-list"]) == 1 {
+                let k = 1 + (elems.len() - 1) / 2;
+                o.push(108);
+                put_u32(o, k as u32);
+                for e in &elems[..k] {
+                    encode_term(o, e, ch, opts)?;
+                }
+                let rest = Val::List { elems: elems[k..].to_vec(), tail: tail.clone() };
+                return encode_term(o, &rest, ch, opts);
+            }
             o.push(108);
             put_u32(o, elems.len() as u32);
             for e in elems {
